@@ -108,6 +108,45 @@ def _register_buildable_defaults_aware_traversers(cls: Type[Buildable]):
   )
 
 
+def _dag_structure(root: Buildable):
+  """Returns a sorted, hashable description of `root`'s DAG structure.
+
+  There is one entry per distinct (by object identity) node: the path at which
+  the node is first reached, and for each of its children the path at which
+  *that* child is first reached. A reference to an already visited object
+  therefore records which object it aliases, not just that the traversal
+  stopped there.
+  """
+  entries = []
+
+  def traverse(value, state: daglish.State):
+    children = ()
+    node_traverser = state.traversal.find_node_traverser(type(value))
+    if node_traverser is not None:
+      values, _ = node_traverser.flatten(value)
+      path_elements = node_traverser.path_elements(value)
+      # Visit children in the order of their path elements, so that the result
+      # does not depend on e.g. dict insertion order.
+      children = tuple(
+          state.call(child, path_element)
+          for path_element, child in sorted(
+              zip(path_elements, values), key=lambda item: item[0]
+          )
+      )
+    entries.append((state.current_path, children))
+    return state.current_path
+
+  daglish.MemoizedTraversal(
+      traverse,
+      root,
+      registry=_defaults_aware_traverser_registry,
+      # Not to memorize internables during traversal, as they might
+      # be equal in value but have different object ids.
+      memoize_internables=False,
+  ).initial_state().call(root)
+  return sorted(entries)
+
+
 def _compare_buildable(x: Buildable, y: Buildable, check_dag: bool = False):
   """Compare if two Buildables are equal, including DAG structure."""
   assert isinstance(x, Buildable)
@@ -148,32 +187,8 @@ def _compare_buildable(x: Buildable, y: Buildable, check_dag: bool = False):
   # result by path, which is expensive. Thus, we compare values first so
   # that most unequal cases will not reach the expensive DAG compare step.
   if check_dag:
-    x_elements = list(
-        daglish.iterate(
-            x,
-            memoized=True,
-            # Not to memorize internables during traversal, as they might
-            # be equal in value but have different object ids.
-            memoize_internables=False,
-            registry=_defaults_aware_traverser_registry,
-        )
-    )
-    y_elements = list(
-        daglish.iterate(
-            y,
-            memoized=True,
-            memoize_internables=False,
-            registry=_defaults_aware_traverser_registry,
-        )
-    )
-    x_paths = sorted([elt[1] for elt in x_elements])
-    y_paths = sorted([elt[1] for elt in y_elements])
-
-    if len(x_paths) != len(y_paths):
+    if _dag_structure(x) != _dag_structure(y):
       return False
-    for x_path, y_path in zip(x_paths, y_paths):
-      if x_path != y_path:
-        return False
 
   return True
 
